@@ -13,7 +13,12 @@
         SetReadDeadline(hdrDeadline); http.ReadRequest
         SetReadDeadline(wholeReqDeadline)             -- i.e. the deadline is CLEARED when ReadTimeout is unset
     `idleTimeout()` = IdleTimeout, else ReadTimeout;  `readHeaderTimeout()` = ReadHeaderTimeout, else
-    ReadTimeout (`proxy.go`).  While the round trip to the origin is in progress nothing reads the client
+    ReadTimeout (`proxy.go`).  ALL of this runs every time `handleLoop` comes round, whatever the bufio
+    reader holds: bytes the client sent ahead while the previous request was being served (a pipelined
+    request, the first bytes of one) are in the reader / the socket buffer, `Peek(1)` returns at once and
+    `t0` is the instant the loop came round — the head of the next request counts as begun THEN, and when
+    it is incomplete `http.ReadRequest` goes back to the socket under `hdrDeadline = t0 + readHeaderTimeout()`
+    (section "The keep-alive loop and the reader": `KConn`, `drain`, `nextK`, `runK`).  While the round trip to the origin is in progress nothing reads the client
     socket, so whatever read deadline is armed cannot fire; `WriteTimeout` covers only the writing of the
     response.  Hence: no limit applies while the proxy waits for the origin.
   * `writeResponse`: `SetWriteDeadline(now + WriteTimeout)` is its FIRST statement (the instant `writeStart`:
@@ -41,7 +46,11 @@
     request had left armed — none unless ReadTimeout is set — and a silent client was never closed.)
   * `proxyproto/net.go readHeaderContext`: the PROXY header must be complete `ReadHeaderTimeout` after the
     FIRST USE of the connection; bytes of an incomplete header do not extend it; on expiry the socket is
-    closed.  Timeout 0 = wait for ever.
+    closed.  Timeout 0 = wait for ever.  (One `context.WithTimeout` around the whole `ReadHeader`, which
+    issues many reads.  The same holds for every limit that bounds an operation of many reads — the two
+    handshakes run under one context, the request head under one absolute read deadline: the closing
+    instant is fixed ONCE, when the phase begins, and `Ev.data` — a piece that does not complete the unit —
+    never moves it.  `nextRearm/runRearm` is the variant that arms the limit anew before every read.)
   * `internal/martian/proxy.go Serve`: one sequential loop: `Accept`; `go handleLoop(conn)`.  Nothing in the
     loop uses the connection (`net.go Listener.Accept` only wraps it: conntrack, `tls.Server`), so neither
     the stacking nor the limits nor anything a peer sends enters the loop.
@@ -290,6 +299,127 @@ def outcomeOf (S : Stacking) (L : Limits) (free : Nat) (ps : List Peer) (k : Nat
 def runningMax : Nat → List Nat → List Nat
   | _, [] => []
   | free, a :: as => max free a :: runningMax (max free a) as
+
+/-! ## The keep-alive loop and the reader
+
+`handleLoop` is a loop: `readRequest`, handle, write the response, `readRequest` again.  While the proxy
+waits for the origin or relays the response it does not read the client socket for a request; what the
+client sends meanwhile (`Ev.data` = a non-empty piece of the next request head or body that does not
+complete it, `Ev.head k` = the rest of a head) stays in the socket buffer and — when it arrived in the same
+segment as the end of the previous request — in the bufio reader.  When the loop comes round, at `t`,
+`readRequest` runs as always: idle deadline, `Peek(1)` (returns at once when a byte is there), `t0 = t`,
+header deadline `t + readHeaderTimeout()`, `http.ReadRequest` — which consumes what is there and goes back
+to the socket, under that deadline, when the head is incomplete. -/
+
+/-- phases in which the proxy does not read the client socket for a request -/
+def notReading : Phase → Bool
+  | .waitingForOrigin | .writing => true
+  | _ => false
+
+/-- events by which the client delivers bytes of a request -/
+def sentByClient : Ev → Bool
+  | .data | .head _ => true
+  | _ => false
+
+/-- a connection with what its client has sent ahead (oldest first): the content of the reader and the
+    socket buffer that `readRequest` has not consumed yet -/
+structure KConn where
+  conn  : Conn
+  ahead : List Ev
+deriving DecidableEq, Repr
+
+/-- number of items in the reader: pieces of at least one byte each, complete heads (`0` ⇔ `Peek(1)` blocks) -/
+def KConn.buffered (k : KConn) : Nat := k.ahead.length
+
+/-- `b` pieces of the next request head that do not complete it -/
+def partialHead (b : Nat) : List Ev := List.replicate b .data
+
+/-- the loop consumes, at the instant `t`, what was sent ahead — until it stops reading again (a complete
+    request is handed to the origin; the rest stays where it is) -/
+def drain (S : Stacking) (L : Limits) (t : Nat) : Conn → List Ev → KConn
+  | c, [] => ⟨c, []⟩
+  | c, e :: es => if notReading c.phase then ⟨c, e :: es⟩ else drain S L t (next S L c t e) es
+
+/-- transition of the loop on an event observed at `t` -/
+def nextK (S : Stacking) (L : Limits) (k : KConn) (t : Nat) (e : Ev) : KConn :=
+  if notReading k.conn.phase && sentByClient e then ⟨k.conn, k.ahead ++ [e]⟩
+  else drain S L t (next S L k.conn t e) k.ahead
+
+/-- `run` for the loop (the same clock discipline: an event is seen no earlier than the phase began) -/
+def runK (S : Stacking) (L : Limits) : KConn → List (Nat × Ev) → Outcome
+  | k, [] =>
+    match k.conn.deadline with
+    | some d => .closed d k.conn.phase k.conn.anchor
+    | none => .stays k.conn
+  | k, (t, e) :: rest =>
+    match k.conn.deadline with
+    | some d => if d ≤ max t k.conn.anchor then .closed d k.conn.phase k.conn.anchor
+                else runK S L (nextK S L k (max t k.conn.anchor) e) rest
+    | none => runK S L (nextK S L k (max t k.conn.anchor) e) rest
+
+/-- nothing is sent ahead in a script (decided along the run): the loop and the plain automaton coincide -/
+def noWriteAhead (S : Stacking) (L : Limits) : Conn → List (Nat × Ev) → Bool
+  | _, [] => true
+  | c, (t, e) :: rest =>
+    !(notReading c.phase && sentByClient e) &&
+      noWriteAhead S L (next S L c (max t c.anchor) e) rest
+
+/-! ### A variant that is NOT the code: deadlines armed only when the reader is empty
+
+`readRequest` with a fast path "a buffered request is parsed without touching the connection": when the
+reader is not empty the idle deadline, the peek and the header deadline are skipped and `http.ReadRequest`
+is called at once.  That is harmless only when the WHOLE head is in the reader; when it is not,
+`http.ReadRequest` goes back to the socket under whatever read deadline the previous request left there
+(`left`: none, unless ReadTimeout is set).  Refuted by a kernel-checked witness in `Theorems/C15.lean`. -/
+
+def nextKskip (S : Stacking) (L : Limits) (left : Option Nat) (k : KConn) (t : Nat) (e : Ev) : KConn :=
+  if notReading k.conn.phase && sentByClient e then ⟨k.conn, k.ahead ++ [e]⟩
+  else
+    let c' := next S L k.conn t e
+    if c'.phase == .idle && !k.ahead.isEmpty then drain S L t ⟨.header, t, left⟩ k.ahead
+    else drain S L t c' k.ahead
+
+def runKskip (S : Stacking) (L : Limits) (left : Option Nat) : KConn → List (Nat × Ev) → Outcome
+  | k, [] =>
+    match k.conn.deadline with
+    | some d => .closed d k.conn.phase k.conn.anchor
+    | none => .stays k.conn
+  | k, (t, e) :: rest =>
+    match k.conn.deadline with
+    | some d => if d ≤ max t k.conn.anchor then .closed d k.conn.phase k.conn.anchor
+                else runKskip S L left (nextKskip S L left k (max t k.conn.anchor) e) rest
+    | none => runKskip S L left (nextKskip S L left k (max t k.conn.anchor) e) rest
+
+/-! ### A variant that is NOT the code: the limit armed anew before every read
+
+A limit that bounds an operation of many reads (PROXY header, handshakes, request head, request body under
+ReadTimeout) implemented as `SetReadDeadline(now + limit)` in front of EVERY read: each piece that arrives
+moves the closing instant, a peer that dribbles is held for (number of pieces) × limit. -/
+
+/-- phases whose limit bounds one operation made of many reads -/
+def multiRead : Phase → Bool
+  | .proxyHeader | .tlsHandshake | .header | .body | .mitmHandshake => true
+  | _ => false
+
+def nextRearm (S : Stacking) (L : Limits) (c : Conn) (t : Nat) (e : Ev) : Conn :=
+  if e == .data && multiRead c.phase then { c with deadline := dl (limitOf L c.phase) t }
+  else next S L c t e
+
+def runRearm (S : Stacking) (L : Limits) : Conn → List (Nat × Ev) → Outcome
+  | c, [] =>
+    match c.deadline with
+    | some d => .closed d c.phase c.anchor
+    | none => .stays c
+  | c, (t, e) :: rest =>
+    match c.deadline with
+    | some d => if d ≤ max t c.anchor then .closed d c.phase c.anchor
+                else runRearm S L (nextRearm S L c (max t c.anchor) e) rest
+    | none => runRearm S L (nextRearm S L c (max t c.anchor) e) rest
+
+/-- a peer that dribbles: `n` pieces, the first at `s + g`, one every `g` -/
+def dribble (s g : Nat) : Nat → List (Nat × Ev)
+  | 0 => []
+  | n + 1 => (s + g, .data) :: dribble (s + g) g n
 
 /-! ## Decidable forms of the property's clauses on what the implementation did -/
 
